@@ -15,6 +15,9 @@ CLAUSE_PROPERTY = {
     "summary-total": "C01", "balance-": "C01", "balanced-": "C02", "balancer-": "C02", "graph-before": "C02",
     "lines-selection": "C11", "kernel-": "C11", "select-": "C11", "semantics-on-different": "C11",
     "graph-on-different": "C03", "graph-edge": "C03", "flag-dependencies": "C03",
+    # the front door: the warnings are part of both outputs (C13); parser / markers / model of another ISA or
+    # architecture than the one named or detected make the analysed kernel a different one (C11)
+    "frontdoor-warning": "C13", "frontdoor-report": "C13", "frontdoor-lcd-timeout": "C05", "frontdoor-": "C11",
 }
 
 
@@ -38,6 +41,36 @@ def _corpus():
     return out
 
 
+def front_door_config(argv):
+    """The configuration record `fd` of specs/Osaca.tla for one command line: the named architecture
+    (lower case, clx = csx as documented), the documented defaults, the LCD time limit, and the ISA of every
+    shipped model READ FROM THE MODEL FILE (first `isa:` line), not from the code's table."""
+    import glob
+    import re
+
+    isa_of = {}
+    for f in glob.glob(os.path.join(env.REPO, "osaca", "data", "*.yml")):
+        with open(f, errors="replace") as fh:
+            head = fh.read(4000)
+        m = re.search(r"^isa:\s*['\"]?([A-Za-z0-9]+)", head, re.M)
+        if m:
+            isa_of[os.path.basename(f)[:-4].lower()] = m.group(1).lower()
+    given, timeout = "", 10
+    for i, a in enumerate(argv):
+        if a == "--arch":
+            given = argv[i + 1].lower()
+        if a == "--lcd-timeout":
+            timeout = int(argv[i + 1])
+    if given == "clx":
+        given = "csx"
+    # README: "--arch ... If no micro-architecture is given, OSACA assumes a default uarch for the detected ISA";
+    # the defaults themselves are configuration constants of the tool
+    import osaca.osaca as oo
+
+    defaults = {k.lower(): v.lower() for k, v in oo.DEFAULT_ARCHS.items()}
+    return {"on": True, "given": given, "defaults": defaults, "isaOf": isa_of, "timeout": timeout}
+
+
 def _one(job):
     jid, argv, fixed, flagdeps, work = job
     from harness import pipeline_trace as pt
@@ -52,7 +85,7 @@ def _one(job):
         if sem and len(sem[0]["kernel"]) > 80:
             # very large kernels (whole unmarked files): the reference cycle enumeration is not bounded
             return {"id": jid, "skipped": "kernel of %d lines" % len(sem[0]["kernel"]), "argv": argv}
-        return {"id": jid, "fixed": fixed, "flagDeps": flagdeps, "events": evs, "argv": argv}
+        return {"id": jid, "fixed": fixed, "flagDeps": flagdeps, "events": evs, "argv": argv, "fd": front_door_config(argv)}
     except BaseException as e:   # SystemExit from argument checks included
         return {"id": jid, "error": "%s: %s" % (type(e).__name__, e), "argv": argv}
 
@@ -63,7 +96,7 @@ def whole_runs(run, pid, tier, seed, n_quick=36):
     rnd = random.Random(seed * 13 + 5)
     x86 = env.QUICK_X86 if quick else env.X86_ARCHS
     arm = env.QUICK_ARM if quick else env.ARM_ARCHS
-    env.warm_models(x86 + arm)
+    env.warm_models(sorted(set(x86 + arm + ["spr", "v2"])))   # spr / v2: the defaults of runs without --arch
     work = env.scratch("wholerun-%s-%d" % (pid.lower(), os.getpid()))
     jobs = []
     for f, isa in _corpus():
@@ -83,6 +116,26 @@ def whole_runs(run, pid, tier, seed, n_quick=36):
     if quick and len(jobs) > n_quick:
         rnd.shuffle(jobs)
         jobs = jobs[:n_quick]
+    # the front door (never thinned out): no --arch (ISA heuristics, default model, ArchWarning), clx = csx is not
+    # shipped here, upper-case architecture names, explicit LCD limits, and files whose register statistics
+    # mislead the heuristics (comments full of the other ISA's register names: the first parser raises on an
+    # x86 file, one retry with the other ISA)
+    corpus = _corpus()
+    pick = corpus if not quick else rnd.sample(corpus, min(6, len(corpus)))
+    for f, isa in pick:
+        rel = os.path.relpath(f, env.REPO)
+        jobs.append(("%s|detected|o" % rel, [f], False, False, work))
+        arch = rnd.choice(x86 if isa == "x86" else arm)
+        jobs.append(("%s|%s|upper-t" % (rel, arch), ["--arch", arch.upper(), "--lcd-timeout", str(rnd.choice([-1, 3, 25])), f],
+                     False, False, work))
+        with open(f) as fh:
+            text = fh.read()
+        other = "# x0 x1 w2 w3 x4 x5 x6 x7\n" if isa == "x86" else "// %xmm0 %xmm1 %ymm2 %zmm3 %rax1\n"
+        n_other = 4 + len(text) // 8
+        mis = os.path.join(work, "mislead_%s" % os.path.basename(f))
+        with open(mis, "w") as fh:
+            fh.write(text + "\n" + other * n_other)
+        jobs.append(("%s|misdetected|o" % rel, [mis], False, False, work))
     # generated kernels from the curated real vocabulary (few registers: many cycles, zero-latency moves
     # inside cycles, unknown instructions) through the same CLI path
     from harness import vocab
@@ -104,12 +157,20 @@ def whole_runs(run, pid, tier, seed, n_quick=36):
         res = list(pool.map(_one, jobs))
     shutil.rmtree(work, ignore_errors=True)
     run.note("whole_run_skipped_large", len([r for r in res if "skipped" in r]))
+    fdr = [r for r in res if "|detected|" in r["id"] or "|misdetected|" in r["id"] or "|upper-t" in r["id"]]
+    run.note("whole_run_front_door", {
+        "runs": len(fdr), "recorder_errors": len([r for r in fdr if "error" in r]),
+        "without_arch": len([r for r in fdr if "events" in r and any(e["ev"] == "detect" for e in r["events"])]),
+        "retried_with_other_isa": len([r for r in fdr if "events" in r and any(e["ev"] == "parsefail" for e in r["events"])])})
     res = [r for r in res if "skipped" not in r]
     good = [r for r in res if "error" not in r]
     bad = [r for r in res if "error" in r]
     for r in bad:
         # a crash of the pipeline on a shipped kernel: attribute by the stage named in the error is not
         # possible here; every property that runs whole traces reports it
+        if "misdetected" in r["id"]:
+            # a file the heuristics take for the other ISA may legitimately be parsed into nonsense: no claim
+            continue
         if "TypeError" in r["error"] or "IndexError" in r["error"] or "KeyError" in r["error"] or "AttributeError" in r["error"]:
             run.fail("%s:whole-run-exception:%s" % (pid, r["error"].split(":")[0]), "%s on osaca %s" % (r["error"], " ".join(r["argv"])), r)
     slim = [{k: v for k, v in r.items() if k != "argv"} for r in good]
@@ -130,6 +191,9 @@ def whole_runs(run, pid, tier, seed, n_quick=36):
         run.note("whole_run_clauses_owned_by_other_properties", others)
     run.add_traces(len(good))
     run.note("whole_run_traces", len(good))
+    # the front-door part of Step model-checked on its own (all event sequences over a small alphabet)
+    for cfgname in ("MC_FrontDoor_guessed", "MC_FrontDoor_named"):
+        run.add_mc(tlc.run_tlc("MC_FrontDoor", cfgname, workers=2, timeout=300), cfgname)
     # R1 for the pipeline order: all orders of the stage events of one ACCEPTED recorded run
     rejected_ids = {cid for cid, _, _ in rejects}
     accepted = [c for c in good if c["id"] not in rejected_ids]
